@@ -76,11 +76,13 @@ def optBJ (o : Oracles) (env : Env) (r : Row) : Option Expr → Bool
 
 /-- ANY LEFT JOIN: the first right row satisfying ON; its columns under the alias and, where the left side has
     no column of that name, also bare -/
+def joinOneJ (o : Oracles) (env : Env) (right : Table) (on : Expr) (l : Row) : Row :=
+  match right.find? (fun rr => evalB o env (l ++ rr) on) with
+  | some rr => l ++ rr
+  | none => l
+
 def anyLeftJoinJ (o : Oracles) (env : Env) (left : Table) (a : Alias) (on : Expr) : Table :=
-  let right := ((env.lookup a).getD []).map (qualify a.text)
-  left.map (fun l => match right.find? (fun rr => evalB o env (l ++ rr) on) with
-    | some rr => l ++ rr
-    | none => l)
+  left.map (joinOneJ o env (((env.lookup a).getD []).map (qualify a.text)) on)
 
 def orderValJ (o : Oracles) (env : Env) (cols : List Expr) (g : List Row) (e : Expr) : Val :=
   match e with
